@@ -89,6 +89,10 @@ def check_account_proof(proof: bytes, shrd_blk: BlockIdExt, address: "Address", 
     if len(proof_cells) != 2:
         raise ProofError('expected 2 root cells in account state proof')
 
+    for proof_cell in proof_cells:
+        if proof_cell.type_ != CellTypes.merkle_proof:
+            raise ProofError(f'Expected Merkle proof Cell, got {proof_cell.type_} Cell type')
+
     state_cell = proof_cells[1]
 
     state_hash = check_block_header_proof(proof_cells[0][0], shrd_blk.root_hash, True)
